@@ -132,11 +132,21 @@ def mut_other_changed(events, rng):
         if ev[j].get("ev") == "Reset":
             nidx = len(ev[j]["idxs"])
             break
-    if nidx != 1:
-        return None
     e["same"] = False
-    e["all"] = [e["st"]]
-    return ev
+    if nidx == 1:
+        e["all"] = [e["st"]]
+        return ev
+    # several indexes: the states of all of them as of the last commit/abort of this history, with this event's
+    # own index replaced by its recorded state; the recorded flag says that some OTHER index changed
+    for j in range(i - 1, -1, -1):
+        if ev[j].get("ev") == "Reset":
+            return None
+        if ev[j].get("ev") in ("Commit", "Abort") and len(ev[j].get("all", [])) == nidx:
+            allst = copy.deepcopy(ev[j]["all"])
+            allst[e["i"] - 1] = e["st"]
+            e["all"] = allst
+            return ev
+    return None
 
 
 def mut_flip_side(events, rng):
@@ -803,7 +813,8 @@ MAIN = {
     ),
     "C07": dict(
         mc=dict(quick=[mc("MC_Multi.cfg", "multi")], thorough=[mc("MC_Multi.cfg", "multi_2toks", {"Toks": "{\"a\", \"b\"}"}, timeout=1800)]),
-        traces=dict(quick=[dict(profile="multi", jobs=8, count=45)], thorough=[dict(profile="multi", jobs=16, count=700)]),
+        traces=dict(quick=[dict(profile="multi", jobs=6, count=45), dict(family="neighbours", jobs=4, count=80, seed_off=70)],
+                    thorough=[dict(profile="multi", jobs=16, count=700), dict(family="neighbours", jobs=8, count=1500, seed_off=70)]),
         model_replay=dict(quick=dict(num=150, max=120), thorough=dict(num=3000, max=2500)),
         distinct=distinct_events, sample_event="Clear",
     ),
